@@ -668,7 +668,9 @@ where
                     .boxed()
                 })?;
 
-                Ok(Self::new(tx, closed_rx, remote_send_err_rx))
+                let mut this = Self::new(tx, closed_rx, remote_send_err_rx);
+                this.max_item_size = max_item_size;
+                Ok(this)
             }
 
             // Received closed channel.
